@@ -602,7 +602,9 @@ pub fn run(ctx: &crate::RunCtx) -> (Summary, Vec<Violation>) {
     // ---- Part C
     let ncorpus = if ctx.tier == "thorough" { 300 } else { 40 };
     for idx in 0..ncorpus {
-        let item = corpus::build(ctx.seed, idx);
+        let Some(item) = corpus::try_build(ctx.seed, idx) else {
+            continue;
+        };
         if ctx.child == 0 {
             corpus::kinds(&item, &mut sum.probes);
         }
@@ -669,6 +671,10 @@ pub fn run(ctx: &crate::RunCtx) -> (Summary, Vec<Violation>) {
         let n = corpus::INCONSISTENT.load(std::sync::atomic::Ordering::Relaxed);
         if n > 0 {
             sum.probes.insert("corpus_copy_serialises_differently".into(), n);
+        }
+        let u = corpus::UNBUILDABLE.load(std::sync::atomic::Ordering::Relaxed);
+        if u > 0 {
+            sum.probes.insert("corpus_item_unbuildable_skipped".into(), u);
         }
     }
     sum.seam_ops = seam_ops;
